@@ -17,17 +17,17 @@ parser, both dumped from the loaded `TSLanguage` by the runtime's own lookup fun
 is the shared `TsVerif.C03.run` (single-version LR driver, port of ts_parser__advance/reduce/accept),
 tied to both REAL parsers per explored string (accept/reject and tree).
 Status: **proved** = ∀-theorem; **partial** = proved under decidable hypotheses evaluated per
-generated pair (fractions: thorough tier, default seed, 1498 pairs, 878 of them with merged states);
+generated pair (fractions: thorough tier, seed 1, 1601 pairs, 963 of them with merged states);
 **judged** = implementation against implementation on explored inputs.
 
 | phrase of the property text | theorems | status |
 |---|---|---|
-| "generating a parser twice from the same grammar, in separate processes, yields byte-identical parser source and node-types output" | — | judged: ≥ 4 (quick 6) fresh processes per optimisation level per grammar, bytes of parser.c / node-types.json compared (`allEqual`); 1498/1498 |
+| "generating a parser twice from the same grammar, in separate processes, yields byte-identical parser source and node-types output" | — | judged: ≥ 4 (quick 6) fresh processes per optimisation level per grammar, bytes of parser.c / node-types.json compared (`allEqual`); 1601/1601 |
 | … the re-interning of action lists before rendering does not depend on the interning history | `canonicalize_perm` (Canon.lean: hand port of `ActionListPool::canonicalize`) | proved about the port |
-| "turning the optimisation off changes no observable result": unoptimised accepts with tree `t` ⇒ optimised accepts with the same `t`, ALL token strings | `sim_preserves`, `findSim_sound`, `optimised_preserves_accepted` | partial: `findSim A B` succeeds — 1498/1498 (failing is a violation) |
-| optimised accepts with tree `t` ⇒ unoptimised accepts with the same `t`, pairs where nothing was merged state-wise | `tables_equivalent` | partial: `findSim B A` succeeds — 620/1498 (`rsim`) |
-| optimised accepts with tree `t` ⇒ unoptimised accepts with the same `t`, pairs with merged states | `optimised_accepted_is_accepted_unoptimised`, `merged_pair_equivalent` (through the source grammar: C03 `parser_sound` on `B`, `parser_complete` on `A`, determinism of the driver; strings of non-extra terminals, existential fuel) | partial: `simCheck ∧ tableSafe B ∧ relOK g B ∧ coverOK g A P ∧ completeOK A P ∧ sameTerminals` — 565/1498, of which 194 of the 878 merged pairs (for LR(1)-by-construction pairs failing is a violation); either converse: 814/1498 |
-| "the two parsers accept the same strings and produce identical trees on every accepted string" — the rest | — | judged: both REAL parsers on every explored string (`agree`; 4.56 M strings, 80408 accepted by both, 0 differing) |
+| "turning the optimisation off changes no observable result": unoptimised accepts with tree `t` ⇒ optimised accepts with the same `t`, ALL token strings | `sim_preserves`, `findSim_sound`, `optimised_preserves_accepted` | partial: `findSim A B` succeeds — 1601/1601 (failing is a violation) |
+| optimised accepts with tree `t` ⇒ unoptimised accepts with the same `t`, pairs where nothing was merged state-wise | `tables_equivalent` | partial: `findSim B A` succeeds — 639/1601 (`rsim`) |
+| optimised accepts with tree `t` ⇒ unoptimised accepts with the same `t`, pairs with merged states | `optimised_accepted_is_accepted_unoptimised`, `merged_pair_equivalent`, `merged_pair_equivalent_up_to_names` (through the source grammar: C03 `parser_sound` on `B`, `parser_complete` on `A`, determinism of the driver; strings of non-extra terminals, existential fuel) | partial: `simCheck ∧ tableSafe B ∧ relOK g B ∧ coverOK g A P ∧ completeOK A P ∧ sameTerminals` — 1105/1601, of which 505 of the 963 merged pairs (for LR(1)-by-construction pairs failing is a violation); either converse: 1143/1601 |
+| "the two parsers accept the same strings and produce identical trees on every accepted string" — the rest | — | judged: both REAL parsers on every explored string (`agree`; 6.2 M strings incl. sentences written without separators for lexically conflicting look-aheads, 113702 accepted by both, 0 differing) |
 
 OPEN: the converse for merged pairs outside the grammar route (precedence-resolved conflicts,
 aliases, hidden terminal rules, > 100 states) is only sampled; process-level determinism is sampled.
